@@ -6,16 +6,16 @@ variable {δ : Type} [DecidableEq δ]
 /-- a call that made no progress and reported no error -/
 def Stuck (c : Call) : Prop := c.out.sent ≤ 0 ∧ c.out.err = .none
 
-theorem drain_stuck (kern : Nat → Nat → Outcome) (gso : Bool) (chunk : List Entry) (done k : Nat) :
-    let d := drain kern gso chunk done k
+theorem drain_stuck (kern : Nat → Nat → Outcome) (gso : Bool) (chunk : List Entry) (ctl : Ctl) (done k : Nat) :
+    let d := drain kern gso chunk ctl done k
     (d.stop = .noProgress → ∃ init last, d.calls = init ++ [last] ∧ Stuck last ∧ ∀ c ∈ init, ¬ Stuck c) ∧
     (d.stop ≠ .noProgress → ∀ c ∈ d.calls, ¬ Stuck c) := by
-  fun_induction drain kern gso chunk done k with
+  fun_induction drain kern gso chunk ctl done k with
   | case1 done k h n o call hpos hover =>
     refine ⟨by simp, fun _ c hc => ?_⟩
     simp at hc; subst hc; simp only [Stuck, call]; omega
   | case2 done k h n o call hpos hover s r ih =>
-    rw [show drain kern gso chunk (done + s) (k + 1) = r from rfl] at ih
+    rw [show drain kern gso chunk ctl (done + s) (k + 1) = r from rfl] at ih
     have hns : ¬ Stuck call := by simp only [Stuck, call]; omega
     refine ⟨fun hs => ?_, fun hs c hc => ?_⟩
     · obtain ⟨init, last, h1, h2, h3⟩ := ih.1 hs
@@ -34,7 +34,7 @@ theorem drain_stuck (kern : Nat → Nat → Outcome) (gso : Bool) (chunk : List 
     refine ⟨by simp, fun _ c hc => ?_⟩
     simp at hc; subst hc; simp only [Stuck, call]; exact fun h => herr h.2
   | case5 done k h n o call hpos herr hrep r ih =>
-    rw [show drain kern gso chunk (done + 1) (k + 1) = r from rfl] at ih
+    rw [show drain kern gso chunk ctl (done + 1) (k + 1) = r from rfl] at ih
     have hns : ¬ Stuck call := by simp only [Stuck, call]; exact fun h => herr h.2
     refine ⟨fun hs => ?_, fun hs c hc => ?_⟩
     · obtain ⟨init, last, h1, h2, h3⟩ := ih.1 hs
@@ -48,17 +48,17 @@ theorem drain_stuck (kern : Nat → Nat → Outcome) (gso : Bool) (chunk : List 
       · exact ih.2 hs c hc
   | case6 done k h => simp
 
-theorem run_stuck (c : Cfg δ) (kern : Nat → Nat → Outcome) (pk : List (Pkt δ)) (gso : Bool) (i k : Nat) :
-    let r := run c kern pk gso i k
+theorem run_stuck (c : Cfg δ) (kern : Nat → Nat → Outcome) (pk : List (Pkt δ)) (gso : Bool) (i k : Nat) (ctl : Ctl) :
+    let r := run c kern pk gso i k ctl
     (r.err = true → ∃ init last, r.calls = init ++ [last] ∧ Stuck last ∧ ∀ c ∈ init, ¬ Stuck c) ∧
     (r.err = false → ∀ c ∈ r.calls, ¬ Stuck c) := by
-  fun_induction run c kern pk gso i k with
-  | case1 gso i k h p hp => simp
-  | case2 gso i k h p hp d hd r ih =>
-    rw [show run c kern pk gso p.2 (k + d.calls.length) = r from rfl] at ih
-    have ds := drain_stuck kern gso p.1 0 k
+  fun_induction run c kern pk gso i k ctl with
+  | case1 gso i k ctl h p hp => simp
+  | case2 gso i k ctl h p hp d hd r ih =>
+    rw [show run c kern pk gso p.next (k + d.calls.length) p.ctl = r from rfl] at ih
+    have ds := drain_stuck kern gso p.ents p.ctl 0 k
     simp only at ds
-    rw [show drain kern gso p.1 0 k = d from rfl] at ds
+    rw [show drain kern gso p.ents p.ctl 0 k = d from rfl] at ds
     have hd' : d.stop ≠ .noProgress := by rw [hd]; simp
     have hn := ds.2 hd'
     refine ⟨fun he => ?_, fun he cc hc => ?_⟩
@@ -71,11 +71,11 @@ theorem run_stuck (c : Cfg δ) (kern : Nat → Nat → Outcome) (pk : List (Pkt 
     · rcases List.mem_append.mp hc with hc | hc
       · exact hn cc hc
       · exact ih.2 he cc hc
-  | case3 gso i k h p hp d i' hd r ih =>
-    rw [show run c kern pk false i' (k + d.calls.length) = r from rfl] at ih
-    have ds := drain_stuck kern gso p.1 0 k
+  | case3 gso i k ctl h p hp d i' hd r ih =>
+    rw [show run c kern pk false i' (k + d.calls.length) p.ctl = r from rfl] at ih
+    have ds := drain_stuck kern gso p.ents p.ctl 0 k
     simp only at ds
-    rw [show drain kern gso p.1 0 k = d from rfl] at ds
+    rw [show drain kern gso p.ents p.ctl 0 k = d from rfl] at ds
     have hd' : d.stop ≠ .noProgress := by rw [hd]; simp
     have hn := ds.2 hd'
     refine ⟨fun he => ?_, fun he cc hc => ?_⟩
@@ -88,18 +88,18 @@ theorem run_stuck (c : Cfg δ) (kern : Nat → Nat → Outcome) (pk : List (Pkt 
     · rcases List.mem_append.mp hc with hc | hc
       · exact hn cc hc
       · exact ih.2 he cc hc
-  | case4 gso i k h p hp d hd =>
-    have ds := drain_stuck kern gso p.1 0 k
+  | case4 gso i k ctl h p hp d hd =>
+    have ds := drain_stuck kern gso p.ents p.ctl 0 k
     simp only at ds
-    rw [show drain kern gso p.1 0 k = d from rfl] at ds
+    rw [show drain kern gso p.ents p.ctl 0 k = d from rfl] at ds
     exact ⟨fun _ => ds.1 hd, by simp⟩
-  | case5 gso i k h p hp d hd =>
-    have ds := drain_stuck kern gso p.1 0 k
+  | case5 gso i k ctl h p hp d hd =>
+    have ds := drain_stuck kern gso p.ents p.ctl 0 k
     simp only at ds
-    rw [show drain kern gso p.1 0 k = d from rfl] at ds
+    rw [show drain kern gso p.ents p.ctl 0 k = d from rfl] at ds
     have hd' : d.stop ≠ .noProgress := by rw [hd]; simp
     exact ⟨by simp, fun _ => ds.2 hd'⟩
-  | case6 gso i k h => simp
+  | case6 gso i k ctl h => simp
 
 theorem chain_lower (l : List Entry) (lo : Nat) (hp : l.Pairwise Before)
     (hg : ∀ e ∈ l, lo ≤ e.start ∧ 1 ≤ e.cnt) : ∀ j (h : j < l.length), lo + j ≤ l[j].start := by
@@ -127,14 +127,14 @@ theorem chain_length (l : List Entry) (lo hi : Nat) (hlh : lo ≤ hi) (hp : l.Pa
     have h2 := hg _ (List.getElem_mem hj)
     omega
 
-theorem drain_calls (kern : Nat → Nat → Outcome) (gso : Bool) (chunk : List Entry) (done k : Nat) :
-    let d := drain kern gso chunk done k
+theorem drain_calls (kern : Nat → Nat → Outcome) (gso : Bool) (chunk : List Entry) (ctl : Ctl) (done k : Nat) :
+    let d := drain kern gso chunk ctl done k
     d.calls.length ≤ chunk.length - done ∧
     (∀ i, d.stop = .replay i → ∃ j, ∃ h : j < chunk.length, done ≤ j ∧ i = chunk[j].start ∧ d.calls.length ≤ j - done + 1) := by
-  fun_induction drain kern gso chunk done k with
+  fun_induction drain kern gso chunk ctl done k with
   | case1 done k h n o call hpos hover => simp; omega
   | case2 done k h n o call hpos hover s r ih =>
-    rw [show drain kern gso chunk (done + s) (k + 1) = r from rfl] at ih
+    rw [show drain kern gso chunk ctl (done + s) (k + 1) = r from rfl] at ih
     have hs : 1 ≤ s := by simp only [s]; omega
     refine ⟨by simp only [List.length_cons]; omega, fun i hi => ?_⟩
     obtain ⟨j, hj, h1, h2, h3⟩ := ih.2 i hi
@@ -145,64 +145,64 @@ theorem drain_calls (kern : Nat → Nat → Outcome) (gso : Bool) (chunk : List 
     simp only [Stop.replay.injEq] at hi
     exact ⟨done, h, Nat.le_refl _, hi.symm, by simp⟩
   | case5 done k h n o call hpos herr hrep r ih =>
-    rw [show drain kern gso chunk (done + 1) (k + 1) = r from rfl] at ih
+    rw [show drain kern gso chunk ctl (done + 1) (k + 1) = r from rfl] at ih
     refine ⟨by simp only [List.length_cons]; omega, fun i hi => ?_⟩
     obtain ⟨j, hj, h1, h2, h3⟩ := ih.2 i hi
     exact ⟨j, hj, by omega, h2, by simp only [List.length_cons]; omega⟩
   | case6 done k h => simp
 
 theorem run_calls (c : Cfg δ) (kern : Nat → Nat → Outcome) (pk : List (Pkt δ)) (gso : Bool)
-    (i k : Nat) (hi : i ≤ pk.length) :
-    (run c kern pk gso i k).calls.length ≤ (pk.length - i) + (if gso then (pk.length - i) + 1 else 0) := by
-  fun_induction run c kern pk gso i k with
-  | case1 gso i k h p hp => simp
-  | case2 gso i k h p hp d hd r ih =>
-    have ps := pack_spec c gso pk i 0 0 hi
+    (i k : Nat) (ctl : Ctl) (hi : i ≤ pk.length) :
+    (run c kern pk gso i k ctl).calls.length ≤ (pk.length - i) + (if gso then (pk.length - i) + 1 else 0) := by
+  fun_induction run c kern pk gso i k ctl with
+  | case1 gso i k ctl h p hp => simp
+  | case2 gso i k ctl h p hp d hd r ih =>
+    have ps := pack_spec c gso pk i 0 0 ctl hi
     simp only at ps
-    rw [show pack c gso pk i 0 0 = p from rfl] at ps
+    rw [show pack c gso pk i 0 0 ctl = p from rfl] at ps
     obtain ⟨p1, p2, p3, p4, p5⟩ := ps
     have ih := ih p2
-    rw [show run c kern pk gso p.2 (k + d.calls.length) = r from rfl] at ih
-    have dc := (drain_calls kern gso p.1 0 k).1
-    rw [show drain kern gso p.1 0 k = d from rfl] at dc
-    have hl := chain_length p.1 i p.2 p1 p4 (fun e he => ⟨(p3 e he).1, (p3 e he).2.2.1.1, (p3 e he).2.1⟩)
+    rw [show run c kern pk gso p.next (k + d.calls.length) p.ctl = r from rfl] at ih
+    have dc := (drain_calls kern gso p.ents p.ctl 0 k).1
+    rw [show drain kern gso p.ents p.ctl 0 k = d from rfl] at dc
+    have hl := chain_length p.ents i p.next p1 p4 (fun e he => ⟨(p3 e he).1, (p3 e he).2.2.1.1, (p3 e he).2.1⟩)
     simp only [List.length_append]
     split at ih <;> simp_all <;> omega
-  | case3 gso i k h p hp d i' hd r ih =>
-    have ps := pack_spec c gso pk i 0 0 hi
+  | case3 gso i k ctl h p hp d i' hd r ih =>
+    have ps := pack_spec c gso pk i 0 0 ctl hi
     simp only at ps
-    rw [show pack c gso pk i 0 0 = p from rfl] at ps
+    rw [show pack c gso pk i 0 0 ctl = p from rfl] at ps
     obtain ⟨p1, p2, p3, p4, p5⟩ := ps
-    have hg : gso = true := drain_replay_gso kern gso p.1 0 k i' hd
-    have dc := (drain_calls kern gso p.1 0 k).2
-    rw [show drain kern gso p.1 0 k = d from rfl] at dc
+    have hg : gso = true := drain_replay_gso kern gso p.ents p.ctl 0 k i' hd
+    have dc := (drain_calls kern gso p.ents p.ctl 0 k).2
+    rw [show drain kern gso p.ents p.ctl 0 k = d from rfl] at dc
     obtain ⟨j, hj, _, hij, hcl⟩ := dc i' hd
-    have gj := p3 p.1[j] (List.getElem_mem hj)
-    have hlow := chain_lower p.1 i p4 (fun e he => ⟨(p3 e he).1, (p3 e he).2.2.1.1⟩) j hj
+    have gj := p3 p.ents[j] (List.getElem_mem hj)
+    have hlow := chain_lower p.ents i p4 (fun e he => ⟨(p3 e he).1, (p3 e he).2.2.1.1⟩) j hj
     have hi' : i' ≤ pk.length := by rw [hij]; have := gj.2.1; have := gj.2.2.1.1; omega
     have ih := ih hi'
-    rw [show run c kern pk false i' (k + d.calls.length) = r from rfl] at ih
+    rw [show run c kern pk false i' (k + d.calls.length) p.ctl = r from rfl] at ih
     simp only [List.length_append, hg, if_true]
     simp at ih
     omega
-  | case4 gso i k h p hp d hd =>
-    have ps := pack_spec c gso pk i 0 0 hi
+  | case4 gso i k ctl h p hp d hd =>
+    have ps := pack_spec c gso pk i 0 0 ctl hi
     simp only at ps
-    rw [show pack c gso pk i 0 0 = p from rfl] at ps
+    rw [show pack c gso pk i 0 0 ctl = p from rfl] at ps
     obtain ⟨p1, p2, p3, p4, p5⟩ := ps
-    have dc := (drain_calls kern gso p.1 0 k).1
-    rw [show drain kern gso p.1 0 k = d from rfl] at dc
-    have hl := chain_length p.1 i p.2 p1 p4 (fun e he => ⟨(p3 e he).1, (p3 e he).2.2.1.1, (p3 e he).2.1⟩)
+    have dc := (drain_calls kern gso p.ents p.ctl 0 k).1
+    rw [show drain kern gso p.ents p.ctl 0 k = d from rfl] at dc
+    have hl := chain_length p.ents i p.next p1 p4 (fun e he => ⟨(p3 e he).1, (p3 e he).2.2.1.1, (p3 e he).2.1⟩)
     simp only; split <;> omega
-  | case5 gso i k h p hp d hd =>
-    have ps := pack_spec c gso pk i 0 0 hi
+  | case5 gso i k ctl h p hp d hd =>
+    have ps := pack_spec c gso pk i 0 0 ctl hi
     simp only at ps
-    rw [show pack c gso pk i 0 0 = p from rfl] at ps
+    rw [show pack c gso pk i 0 0 ctl = p from rfl] at ps
     obtain ⟨p1, p2, p3, p4, p5⟩ := ps
-    have dc := (drain_calls kern gso p.1 0 k).1
-    rw [show drain kern gso p.1 0 k = d from rfl] at dc
-    have hl := chain_length p.1 i p.2 p1 p4 (fun e he => ⟨(p3 e he).1, (p3 e he).2.2.1.1, (p3 e he).2.1⟩)
+    have dc := (drain_calls kern gso p.ents p.ctl 0 k).1
+    rw [show drain kern gso p.ents p.ctl 0 k = d from rfl] at dc
+    have hl := chain_length p.ents i p.next p1 p4 (fun e he => ⟨(p3 e he).1, (p3 e he).2.2.1.1, (p3 e he).2.1⟩)
     simp only; split <;> omega
-  | case6 gso i k h => simp
+  | case6 gso i k ctl h => simp
 
 end Nebula.Lemmas.Writebatch
